@@ -19,7 +19,12 @@ import (
 	"testing"
 	"time"
 
+	record "github.com/libp2p/go-libp2p-record"
 	kb "github.com/libp2p/go-libp2p-kbucket"
+	"github.com/libp2p/go-libp2p/core/host"
+	"github.com/libp2p/go-libp2p/core/protocol"
+	mh "github.com/multiformats/go-multihash"
+	pb "github.com/libp2p/go-libp2p-kad-dht/pb"
 	"github.com/libp2p/go-libp2p/core/network"
 	"github.com/libp2p/go-libp2p/core/peer"
 	ma "github.com/multiformats/go-multiaddr"
@@ -147,6 +152,84 @@ func runSwapRace(c *vu.Case) {
 	c.Tag(fmt.Sprintf("calls>=%dk", calls.Load()/1000/100*100))
 }
 
+// bulkrace: the crawler alternates between a peer set and an EMPTY result while goroutines run the bulk operations
+// (PutMany / ProvideMany): every call returns — an error when it meets the empty table — and none panics.
+func runBulkRace(c *vu.Case) {
+	a := fkv(c.In[0])
+	crawls, _ := strconv.Atoi(a["crawls"])
+	workers, _ := strconv.Atoi(a["workers"])
+	n, _ := strconv.Atoi(a["n"])
+	h := simnet.NewHost(fPeer(1000000))
+	addr, _ := ma.NewMultiaddr("/ip4/8.8.8.8/tcp/4001")
+	h.SetAddrs([]ma.Multiaddr{addr})
+	cr := &altCrawler{h: h, sets: [2]map[peer.ID][]ma.Multiaddr{{}, {}}}
+	for i := 0; i < n; i++ {
+		p := fPeer(i + 1)
+		addrs := []ma.Multiaddr{groupAddr(byte('a'+i%20), i+1)}
+		h.Net().AddConn(p, network.DirOutbound, addrs[0])
+		h.Peerstore().AddAddrs(p, addrs, time.Hour)
+		cr.sets[0][p] = addrs // sets[1] stays empty: a crawl that reached nobody
+	}
+	sender := &simnet.Sender{Name: "b"}
+	sender.Auto = func(pk *simnet.Parked) (simnet.Result, bool) { return simnet.Result{Err: simnet.ErrScripted}, true }
+	d, err := NewFullRT(h, "/verif", WithCrawler(cr), WithIPDiversityFilterLimit(0),
+		DHTOption(kaddht.BucketSize(3), kaddht.BootstrapPeers(), kaddht.Validator(record.NamespacedValidator{"v": fValidator{new(bool)}}),
+			kaddht.WithCustomMessageSender(func(h host.Host, protos []protocol.ID) pb.MessageSenderWithDisconnect { return sender })))
+	if err != nil {
+		panic(err)
+	}
+	defer d.Close()
+	ctx := context.Background()
+	var calls, panics atomic.Int64
+	var first atomic.Value
+	stop := make(chan struct{})
+	var wg sync.WaitGroup
+	for r := 0; r < workers; r++ {
+		wg.Add(1)
+		go func(r int) {
+			defer wg.Done()
+			for i := 0; ; i++ {
+				select {
+				case <-stop:
+					return
+				default:
+				}
+				func() {
+					defer func() {
+						if x := recover(); x != nil {
+							if panics.Add(1) == 1 {
+								first.Store(fmt.Sprint(x))
+							}
+						}
+					}()
+					cctx, cancel := context.WithTimeout(ctx, 50*time.Millisecond)
+					defer cancel()
+					if (r+i)%2 == 0 {
+						keyMH, _ := mh.Sum([]byte(fmt.Sprintf("bulk-%d-%d", r, i%7)), mh.SHA2_256, -1)
+						_ = d.ProvideMany(cctx, []mh.Multihash{keyMH})
+					} else {
+						_ = d.PutMany(cctx, []string{fmt.Sprintf("/v/bulk-%d-%d", r, i%7)}, [][]byte{[]byte("1:ok")})
+					}
+					calls.Add(1)
+				}()
+			}
+		}(r)
+	}
+	for i := 0; i < crawls; i++ {
+		if err := d.TriggerRefresh(ctx); err != nil {
+			break
+		}
+	}
+	close(stop)
+	wg.Wait()
+	c.Out = append(c.Out, fmt.Sprintf("panics=%d", min(panics.Load(), 1)))
+	if f, ok := first.Load().(string); ok {
+		c.Out[0] += " first:" + strings.ReplaceAll(f, " ", "_")
+	}
+	c.Tag("nontrivial")
+	c.Tag(fmt.Sprintf("bulkcalls>=%dk", calls.Load()/1000/10*10))
+}
+
 func TestVerifC16s(t *testing.T) {
 	vu.Run(t, vu.Config{Prop: "C16s", QuickN: 4, ThoroughN: 40,
 		Gen: func(r *vu.RNG, c *vu.Case) bool {
@@ -154,8 +237,18 @@ func TestVerifC16s(t *testing.T) {
 			if c.Tier == "thorough" {
 				crawls = 30000
 			}
+			if c.Idx%2 == 1 {
+				c.In = append(c.In, fmt.Sprintf("bulkrace crawls=%d workers=%d n=%d", crawls, []int{8, 12}[r.Intn(2)], []int{10, 30}[r.Intn(2)]))
+				return true
+			}
 			c.In = append(c.In, fmt.Sprintf("swaprace crawls=%d readers=%d K=%d n=%d", crawls, []int{8, 12, 16}[r.Intn(3)], []int{3, 5, 8}[r.Intn(3)], []int{30, 45, 60}[r.Intn(3)]))
 			return true
 		},
-		Exec: runSwapRace})
+		Exec: func(c *vu.Case) {
+			if strings.HasPrefix(c.In[0], "bulkrace") {
+				runBulkRace(c)
+			} else {
+				runSwapRace(c)
+			}
+		}})
 }
